@@ -404,7 +404,13 @@ impl Monitor {
         self.by_port[ep].get(&local_port).map(|i| &self.pairs[*i])
     }
 
-    fn live_ports(&self, ep: usize) -> usize {
+    /// Port numbers endpoint `ep` must still hold according to the wire: ports that are not finished
+    /// at `ep` plus its unanswered open requests.
+    pub fn held_numbers(&self, ep: usize) -> usize {
+        self.live_ports(ep) + self.outstanding[ep].len()
+    }
+
+    pub fn live_ports(&self, ep: usize) -> usize {
         self.by_port[ep].values().filter(|i| !self.pairs[**i].finished_at(ep)).count()
     }
 
